@@ -25,6 +25,16 @@ def to_int(payload, lo=None, hi=None):
     return v
 
 
+def ref_version(p, library):
+    """The version a node holds after presenting payload p: for ASCII-decimal sections d(.d)* the property's own rule
+    (kept as written when numerically >= 1.4, else the fallback '1.4'), otherwise the library's verdict."""
+    import re
+    if isinstance(p, str) and p.isascii() and re.fullmatch(r"[0-9]+(\.[0-9]+)*", p) and len(p) <= 200:
+        secs = [int(x) for x in p.split(".")]
+        return p if secs + [0] * (2 - len(secs)) >= [1, 4] else "1.4"
+    return library(p)
+
+
 class Ref:
     """Protocol meaning of accepted messages: node/child/value tree on plain dicts."""
 
@@ -51,7 +61,7 @@ class Ref:
                 if new:
                     nodes[n] = self.blank(n)
                 nodes[n]["type"] = s
-                nodes[n]["pv"] = safe_is_version(p)
+                nodes[n]["pv"] = ref_version(p, safe_is_version)
                 return "nodepres" if new else "nodepres-again"
             if n not in nodes:
                 return "childpres-unknown-node"
